@@ -269,7 +269,7 @@ func extractLayout(f *ast.File, sp layoutSpec) []litem {
 				// r.Seek(N, 1)
 				if call, ok := s.X.(*ast.CallExpr); ok {
 					if se, ok := call.Fun.(*ast.SelectorExpr); ok && se.Sel.Name == "Seek" && len(call.Args) == 2 {
-						if n, ok := intLit(call.Args[0]); ok && exprString(call.Args[1]) == "1" {
+						if n, ok := intLit(call.Args[0]); ok && (exprString(call.Args[1]) == "1" || exprString(call.Args[1]) == "io.SeekCurrent") {
 							items = append(items, litem{"", int(n)})
 							continue
 						}
